@@ -3324,6 +3324,8 @@ class quantized_hswish(quantized_bits):  # pylint: disable=invalid-name
       flags.append(
           "use_stochastic_rounding=" + str(int(self.use_stochastic_rounding))
       )
+    if self.scale_axis is not None:
+      flags.append("scale_axis=" + str(self.scale_axis).replace(" ", ""))
     return "quantized_hswish(" + ",".join(flags) + ")"
 
   def __call__(self, x):
